@@ -11,3 +11,6 @@ files = sorted(str(p.relative_to(repo)) for p in (repo / 'bobocep').rglob('*.py'
 out = normalize.pin(repo, files)
 Path(normalize._PIN).write_text(json.dumps(out, indent=0, sort_keys=True))
 print(sum(len(v) for v in out.values()), 'functions pinned')
+from translate import renames
+Path(renames._PIN).write_text(json.dumps(renames.pin(repo), indent=0, sort_keys=True))
+print('members pinned')
